@@ -224,10 +224,6 @@ def s_generic(draw, min_outer=1, max_tensors=5, pair=None, connected=False, kind
     if not connected and not pair and len(edges) >= 1 and draw(st.integers(0, 5)) == 0:
         edges.pop(draw(st.integers(0, len(edges) - 1)))
     names = list(draw(st.permutations(POOL)))
-    # make the names the library uses internally likely to be present
-    if draw(st.integers(0, 3)) == 0:
-        names.remove("b")
-        names.insert(draw(st.integers(0, 3)), "b")
     it = iter(names)
     sizes = {}
     tinds = [[] for _ in range(n)]
@@ -380,11 +376,7 @@ def run_inds_basic(case):
     kw = dict(contract=case["contract"], transpose=case["transpose"], dagger=case["dagger"], tags=case["tags"])
     if case["cutoff"]:
         kw["cutoff"] = 0.0  # documented: ignored by modes that do not split
-    arg_inds = inds
-    if len(inds) == 1 and case["str_ind"]:
-        # "inds : str or sequence of str": a single label may be given bare when it is one character long or not
-        arg_inds = (inds[0],)
-    res = call_gate_inds(tn, Garg, arg_inds, case, **kw)
+    res = call_gate_inds(tn, Garg, tuple(inds) if case["str_ind"] else list(inds), case, **kw)  # tuple / list spelling
     info = dict(entry="gate_inds", contract=case["contract"], transpose=case["transpose"], dagger=case["dagger"], k=len(inds))
     op = effective(Gm, case["transpose"], case["dagger"])
     e = verify(before, floor, res, order, dims, [(op, [order.index(l) for l in inds])],
@@ -1004,7 +996,7 @@ def run_mps_gate(case):
 def s_mps_gate_split(draw, tier):
     cd = draw(s_chain())
     return {"chain": cd, "where": draw(s_where(cd, 2, adj=True)), "gate": draw(s_gate()), "inplace": draw(st.booleans()),
-            "absorb": draw(st.sampled_from(["default", "both", "left", "right", None])),
+            "absorb": draw(st.sampled_from(["default", "both", "left", "right"])),
             "method": draw(st.sampled_from(["default", "svd", "eig", "qr"])), "max_bond": draw(st.sampled_from(["default", None])),
             "cutoff_mode": draw(st.sampled_from(["default", "abs", "rel", "rsum2"]))}
 
@@ -1541,6 +1533,18 @@ def run_ag_vector(case):
                                   [gd["site_tag_id"].format(sites[w]) for w in where])
         if len(new) != 1 or set(new[0].tags) != want:
             raise Violation("gate-tags", got=sorted(new[0].tags) if new else [], want=sorted(want), propagate=str(pt), **info)
+    if mode == "split-gate" and k == 2:
+        # documented: both halves of the split gate get `tags` and the propagated tags; with 'register' each half only
+        # the site tag of the site it sits above (= the half that carries that site's outer label)
+        pt = False if case["propagate_tags"] == "default" else case["propagate_tags"]
+        st_all = {gd["site_tag_id"].format(x) for x in sites}
+        for w in where:
+            (tid,) = res.ind_map[order[w]]
+            if tid in old_tids:
+                raise Violation("gate-tags", got=[], want=["<gate half above site>"], propagate=str(pt), **info)
+            want = expected_gate_tags(pt, given_tags(case["tags"]), holder_tags, st_all, [gd["site_tag_id"].format(sites[w])])
+            if set(res.tensor_map[tid].tags) != want:
+                raise Violation("gate-tags", got=sorted(res.tensor_map[tid].tags), want=sorted(want), propagate=str(pt), half=True, **info)
     return {"nt": k >= 2 or case["transpose"] or case["dagger"] or mode not in (False, True), "err": e,
             "cls": gate_classes(case["gate"], k) + ["contract=" + mode_name(mode), "domain=" + dom, f"T={case['transpose']}", f"dag={case['dagger']}",
                                                     "names=" + gd["names"], f"ptags={case['propagate_tags']}",
@@ -1960,6 +1964,52 @@ def run_op_lazy(case):
                                           "ids=" + "".join(case["aids"]), "names=" + gd["names"]]}
 
 
+# ---------------------------------------------------------------------------
+# 22. Dense1D (the single-tensor 1D vector used by the dense circuit simulator)
+# ---------------------------------------------------------------------------
+
+@st.composite
+def s_dense1d(draw, tier):
+    d = draw(st.sampled_from([2, 2, 3]))
+    n = draw(st.integers(1, 8 if d == 2 else 5))
+    mode = draw(st.sampled_from(ALL_INDS_MODES))
+    k = min(n, draw(K123) if mode in (False, True, "auto-split-gate", "split", "reduce-split") else draw(st.sampled_from([1, 2, 2])))
+    return {"n": n, "phys": d, "seed": draw(A.seeds), "dtype": draw(st.sampled_from(A.DTYPES64)), "contract": mode,
+            "where": list(draw(st.permutations(list(range(n)))))[:k], "gate": draw(s_gate()), "inplace": draw(st.booleans()),
+            "site_ind_id": draw(st.sampled_from(["k{}", "q{}"])), "cutoff": draw(st.sampled_from(LAZY_CUTOFFS)),
+            "propagate_tags": draw(st.sampled_from(["default", "register", False, True]))}
+
+
+def run_dense1d(case):
+    Q = qtn()
+    n, d = case["n"], case["phys"]
+    psi = Q.Dense1D(A.rand_state(case["seed"], d ** n, case["dtype"]), phys_dim=d, site_ind_id=case["site_ind_id"])
+    where = list(case["where"])
+    k = len(where)
+    mode = case["contract"]
+    order = [case["site_ind_id"].format(i) for i in range(n)]
+    dims = [d] * n
+    Gm, Garg = build_gate(case["gate"], [d] * k)
+    before, floor = dense(psi, order), magnitude(psi)
+    alltags, cls0 = sorted(psi.tags), type(psi)
+    kw = dict(contract=mode)
+    if case["propagate_tags"] != "default":
+        kw["propagate_tags"] = case["propagate_tags"]
+    if mode in ("split", "reduce-split"):
+        kw["cutoff"] = 0.0
+    elif mode not in (False, True):
+        kw["cutoff"] = case["cutoff"]
+    info = dict(entry="Dense1D.gate", contract=mode_name(mode), k=k)
+    res = psi.gate_(Garg, tuple(where), **kw) if case["inplace"] else psi.gate(Garg, tuple(where), **kw)
+    e = verify(before, floor, res, order, dims, [(Gm, where)], keep_tags=alltags, **info)
+    check_class(cls0, res, **info)
+    if mode in (True, "split", "reduce-split") and res.num_tensors != 1:
+        # every target lives on the single tensor: documented as "contracted like True"
+        raise Violation("tensor-count", got=res.num_tensors, want=1, **info)
+    return {"nt": k >= 2, "err": e, "cls": gate_classes(case["gate"], k) + ["contract=" + mode_name(mode), f"n={n}", f"phys={d}",
+                                                                          "sorted" if where == sorted(where) else "unsorted"]}
+
+
 SUBCHECKS = [
     SubCheck("tensor_gate", run_tensor_gate, s_tensor_gate, examples=(150, 3000), shards=(1, 4),
              rule="Tensor.gate / gate_ on one label of a rank 1-3 tensor, transpose (and its deprecated alias), preserve_inds; "
@@ -2017,4 +2067,6 @@ SUBCHECKS = [
     SubCheck("op_lazy", run_op_lazy, s_op_lazy, examples=(250, 5000), shards=(1, 4),
              rule="operator given as a seeded arbitrary-graph operator network: gate_with_op_lazy on vectors (operator on a subset of the sites, "
                   "transpose) and gate_upper/lower/sandwich_with_op_lazy on operators (transpose / dagger); all nt"),
+    SubCheck("dense1d_gate", run_dense1d, s_dense1d, examples=(150, 3000), shards=(1, 4),
+             rule="Dense1D.gate (single-tensor 1D vector, up to 8 qubits / 5 qutrits): 7 modes, 1-3 sites in any order; nt: >=2 sites"),
 ]
